@@ -17,6 +17,8 @@ type CV struct {
 	Ty types.Type     // nil for untyped constants and ghost/ref-sorted values
 	K  constant.Value // untyped constant
 	Sort string       // explicit sort when Ty is nil and K is nil
+	AbsOf  string     // for a rebased quantified index: the bare SMT bound variable (absolute index)
+	AbsOff string     // ... and the slice offset it is rebased on (value == AbsOf - AbsOff)
 }
 
 type Env struct {
@@ -214,8 +216,26 @@ func (e *Env) eval(x CExpr) CV {
 			t, srt := e.typeByName(qv.Type)
 			name := "q_" + mangle(qv.Name)
 			ne.bound[qv.Name] = CV{T: name, Ty: t, Sort: srt}
+			// rebase: if the body indexes a slice with this bare variable, quantify over the
+			// absolute index into the backing array so that the trigger carries the bare variable
+			if t != nil && isInteger(t) && intWidth(t) == 64 {
+				if sl, underOld := findIndexedBy(n.Body, qv.Name); sl != nil {
+					ee := e
+					if underOld && e.old != nil {
+						ee = e.clone()
+						ee.st = e.old
+						ee.preferParams = true
+					}
+					if sv, ok := ee.tryEval(sl); ok && sv.Ty != nil {
+						if _, isSl := sv.Ty.Underlying().(*types.Slice); isSl {
+							off := sx("s_off", sv.T)
+							ne.bound[qv.Name] = CV{T: g.arith(token.SUB, name, off, intT), Ty: t, Sort: srt, AbsOf: name, AbsOff: off}
+						}
+					}
+				}
+			}
 			binds = append(binds, fmt.Sprintf("(%s %s)", name, srt))
-			if t != nil {
+			if t != nil && !(isInteger(t) && intWidth(t) == 64 && !isUnsigned(t)) {
 				guards = append(guards, g.wf(name, t))
 			}
 		}
@@ -616,6 +636,10 @@ func (e *Env) index(v, i CV) CV {
 		}
 	case *types.Slice:
 		k, s := g.elemKey(u.Elem())
+		// quantified index rebased on this slice's offset: use the bare bound variable
+		if i.AbsOf != "" && i.AbsOff == sx("s_off", v.T) {
+			return CV{T: sx("select", sx("select", g.heapGet(e.st, k, s), sx("s_arr", v.T)), i.AbsOf), Ty: u.Elem()}
+		}
 		return CV{T: sx("select", sx("select", g.heapGet(e.st, k, s), sx("s_arr", v.T)), g.arith(token.ADD, sx("s_off", v.T), ix, intT)), Ty: u.Elem()}
 	case *types.Array:
 		return CV{T: sx("select", v.T, ix), Ty: u.Elem()}
@@ -756,6 +780,37 @@ func (e *Env) call(n *CCall) CV {
 		}
 		return CV{T: g.convertInt(v.T, v.Ty, byteT), Ty: byteT}
 	}
+	// contract-level predicate (macro)
+	{
+		pkgPath, pname := "", n.Fun
+		if e.pkg != nil {
+			pkgPath = e.pkg.Path()
+		}
+		if i := strings.Index(n.Fun, "."); i >= 0 {
+			if p := e.importByName(n.Fun[:i]); p != nil {
+				pkgPath, pname = p.Path(), n.Fun[i+1:]
+			}
+		}
+		if pd, ok := g.P.preds[pkgPath+"."+pname]; ok {
+			if len(pd.Params) != len(n.Args) {
+				panic(cerr("pred %s expects %d arguments", n.Fun, len(pd.Params)))
+			}
+			ne := e.clone()
+			ne.vars = map[string]CV{}
+			for k, v := range e.vars {
+				ne.vars[k] = v
+			}
+			for i, a := range n.Args {
+				ne.vars[pd.Params[i]] = e.eval(a)
+			}
+			// predicate bodies only see their parameters, bound variables and package scope
+			ne.fr = nil
+			if pk, ok := g.P.allPkgs[pkgPath]; ok {
+				ne.pkg = pk.Types
+			}
+			return ne.eval(pd.Body)
+		}
+	}
 	// spec function
 	var obj types.Object
 	if i := strings.Index(n.Fun, "."); i >= 0 {
@@ -792,4 +847,61 @@ func (e *Env) call(n *CCall) CV {
 		return CV{T: name, Ty: rt}
 	}
 	return CV{T: sx(name, ts...), Ty: rt}
+}
+
+// findIndexedBy returns the first slice expression X such that the body contains X[name]
+// (X not mentioning bound variables itself).
+func findIndexedBy(x CExpr, name string) (CExpr, bool) {
+	var found CExpr
+	foundOld := false
+	var walk func(x CExpr, old bool)
+	walk = func(x CExpr, old bool) {
+		if found != nil || x == nil {
+			return
+		}
+		switch n := x.(type) {
+		case *CIndex:
+			if id, ok := n.I.(*CIdent); ok && id.Name == name {
+				found = n.X
+				foundOld = old
+				return
+			}
+			walk(n.X, old)
+			walk(n.I, old)
+		case *CUnary:
+			walk(n.X, old)
+		case *CBinary:
+			walk(n.X, old)
+			walk(n.Y, old)
+		case *CCall:
+			for _, a := range n.Args {
+				walk(a, old)
+			}
+		case *CSlice:
+			walk(n.X, old)
+			walk(n.Lo, old)
+			walk(n.Hi, old)
+		case *CField:
+			walk(n.X, old)
+		case *CQuant:
+			walk(n.Body, old)
+		case *COld:
+			walk(n.X, true)
+		}
+	}
+	walk(x, false)
+	return found, foundOld
+}
+
+func (e *Env) tryEval(x CExpr) (v CV, ok bool) {
+	defer func() {
+		if r := recover(); r != nil {
+			if _, isRej := r.(rejectErr); isRej {
+				ok = false
+				return
+			}
+			panic(r)
+		}
+	}()
+	return e.eval(x), true
 }
